@@ -475,7 +475,23 @@ func ext۰reflect۰Value۰Field(fr *frame, args []value) value {
 	// Signature: func (v reflect.Value, i int) reflect.Value
 	v := args[0]
 	i := args[1].(int)
-	return makeReflectValue(rV2T(v).t.Underlying().(*types.Struct).Field(i).Type(), rV2V(v).(structure)[i])
+	st, ok := rV2T(v).t.Underlying().(*types.Struct)
+	if !ok {
+		panic(rtErr(fr, "reflect: call of reflect.Value.Field on "+reflectKind(rV2T(v).t).String()+" Value"))
+	}
+	if i < 0 || i >= st.NumFields() {
+		panic(rtErr(fr, "reflect: Field index out of range"))
+	}
+	ro := rVRO(v) || !st.Field(i).Exported()
+	var r structure
+	if a := rV2A(v); a != nil {
+		s := (*a).(structure)
+		r = makeReflectValueAddr(st.Field(i).Type(), &s[i]).(structure)
+	} else {
+		r = makeReflectValue(st.Field(i).Type(), rV2V(v).(structure)[i]).(structure)
+	}
+	r[3] = ro
+	return r
 }
 
 func ext۰reflect۰Value۰Float(fr *frame, args []value) value {
